@@ -118,6 +118,13 @@ structure St where
   pair : Option Pair := none
   map : IMap := []
 
+def parseNoise : String → Option Noise
+  | "kraken_hb" => some .krakenHeartbeat
+  | "kraken_err" => some .krakenError
+  | "bybit_resp" => some .bybitResponse
+  | "bybit_pong" => some .bybitPong
+  | _ => none
+
 def model : Drv St where
   init := {}
   step s toks :=
@@ -141,6 +148,14 @@ def model : Drv St where
       | some p, some msg =>
         if !shapeOk p msg then (s, ["bad-op"]) else
         match transform p s.map msg with
+        | .events evs => (s, ("nev " ++ toString evs.length) :: (evs.map fmtEvent).flatten)
+        | .unidentifiable id => (s, ["nev 1", "err unidentifiable", "errid " ++ String.ofList id])
+      | _, _ => (s, ["bad-op"])
+    | ["noise", v] =>
+      match s.pair, parseNoise v with
+      | some p, some n =>
+        if !n.sentBy p.exch then (s, ["bad-op"]) else
+        match transformNoise p s.map n with
         | .events evs => (s, ("nev " ++ toString evs.length) :: (evs.map fmtEvent).flatten)
         | .unidentifiable id => (s, ["nev 1", "err unidentifiable", "errid " ++ String.ofList id])
       | _, _ => (s, ["bad-op"])
@@ -218,6 +233,11 @@ def spec : Drv SpecSt where
           | .rejected => (s, ["nev 1", "err unidentifiable"])
           | .attributed key => (s, specEvents p key msg)
           | .ambiguous => (s, [])
+      | _, _ => (s, ["bad-op"])
+    | ["noise", v] =>
+      -- a message that is not market data and names no market yields neither an event nor an error
+      match s.pair, parseNoise v with
+      | some p, some n => if n.sentBy p.exch then (s, ["nev 0"]) else (s, ["bad-op"])
       | _, _ => (s, ["bad-op"])
     | _ => (s, ["bad-op"])
 
